@@ -14,6 +14,7 @@ package main
 import (
 	"encoding/json"
 	"fmt"
+	"hash/fnv"
 	"os"
 	"runtime"
 	"sort"
@@ -29,6 +30,7 @@ import (
 	"github.com/ajitpratap0/GoSQLX/pkg/sql/security"
 
 	"verif/internal/core"
+	"verif/internal/lexconc"
 	"verif/internal/ops"
 )
 
@@ -49,30 +51,83 @@ func join(n int, f func(i int) string, sep string) string {
 }
 
 var families = []family{
-	{"one-long-line", func(n int) string { return "SELECT " + join(n, func(i int) string { return fmt.Sprintf("c%d", i) }, ", ") + " FROM t" }},
-	{"many-lines", func(n int) string { return "SELECT\n" + join(n, func(i int) string { return fmt.Sprintf("  c%d", i) }, ",\n") + "\nFROM t" }},
-	{"comment-lines", func(n int) string { return join(n, func(i int) string { return fmt.Sprintf("-- comment number %d", i) }, "\n") + "\nSELECT 1" }},
+	{"one-long-line", func(n int) string {
+		return "SELECT " + join(n, func(i int) string { return fmt.Sprintf("c%d", i) }, ", ") + " FROM t"
+	}},
+	{"many-lines", func(n int) string {
+		return "SELECT\n" + join(n, func(i int) string { return fmt.Sprintf("  c%d", i) }, ",\n") + "\nFROM t"
+	}},
+	{"comment-lines", func(n int) string {
+		return join(n, func(i int) string { return fmt.Sprintf("-- comment number %d", i) }, "\n") + "\nSELECT 1"
+	}},
 	{"block-comments", func(n int) string { return "SELECT " + join(n, func(i int) string { return "/* c */" }, " ") + " 1" }},
-	{"block-comment-lines", func(n int) string { return join(n, func(i int) string { return fmt.Sprintf("/* note %d */ SELECT %d;", i, i) }, "\n") }},
+	{"block-comment-lines", func(n int) string {
+		return join(n, func(i int) string { return fmt.Sprintf("/* note %d */ SELECT %d;", i, i) }, "\n")
+	}},
 	{"comment-only-lines", func(n int) string { return join(n, func(i int) string { return "/* c */" }, "\n") + "\nSELECT 1" }},
-	{"blanks-then-comments", func(n int) string { return strings.Repeat(" ", n*5) + join(n, func(i int) string { return "/*c*/" }, "") + " SELECT 1" }},
-	{"indented-lines", func(n int) string { return "SELECT\n" + join(n, func(i int) string { return strings.Repeat(" ", 40) + fmt.Sprintf("c%d", i) }, ",\n") + "\nFROM t" }},
-	{"or-chain", func(n int) string { return "SELECT a FROM t WHERE " + join(n, func(i int) string { return fmt.Sprintf("a = %d", i) }, " OR ") }},
-	{"and-chain", func(n int) string { return "SELECT a FROM t WHERE " + join(n, func(i int) string { return fmt.Sprintf("c%d > %d", i, i) }, " AND ") }},
-	{"plus-chain", func(n int) string { return "SELECT " + join(n, func(i int) string { return fmt.Sprintf("c%d", i) }, " + ") + " FROM t" }},
-	{"concat-chain", func(n int) string { return "SELECT " + join(n, func(i int) string { return fmt.Sprintf("'s%d'", i) }, " || ") + " FROM t" }},
-	{"in-list", func(n int) string { return "SELECT a FROM t WHERE a IN (" + join(n, func(i int) string { return strconv.Itoa(i) }, ", ") + ")" }},
-	{"values-rows", func(n int) string { return "INSERT INTO t (a, b) VALUES " + join(n, func(i int) string { return fmt.Sprintf("(%d, 'v%d')", i, i) }, ", ") }},
-	{"case-whens", func(n int) string { return "SELECT CASE " + join(n, func(i int) string { return fmt.Sprintf("WHEN a = %d THEN %d", i, i) }, " ") + " ELSE 0 END FROM t" }},
-	{"many-statements", func(n int) string { return join(n, func(i int) string { return fmt.Sprintf("SELECT a, b FROM t%d WHERE a = %d", i, i) }, ";\n") }},
+	{"blanks-then-comments", func(n int) string {
+		return strings.Repeat(" ", n*5) + join(n, func(i int) string { return "/*c*/" }, "") + " SELECT 1"
+	}},
+	{"indented-lines", func(n int) string {
+		return "SELECT\n" + join(n, func(i int) string { return strings.Repeat(" ", 40) + fmt.Sprintf("c%d", i) }, ",\n") + "\nFROM t"
+	}},
+	{"or-chain", func(n int) string {
+		return "SELECT a FROM t WHERE " + join(n, func(i int) string { return fmt.Sprintf("a = %d", i) }, " OR ")
+	}},
+	{"and-chain", func(n int) string {
+		return "SELECT a FROM t WHERE " + join(n, func(i int) string { return fmt.Sprintf("c%d > %d", i, i) }, " AND ")
+	}},
+	{"plus-chain", func(n int) string {
+		return "SELECT " + join(n, func(i int) string { return fmt.Sprintf("c%d", i) }, " + ") + " FROM t"
+	}},
+	{"concat-chain", func(n int) string {
+		return "SELECT " + join(n, func(i int) string { return fmt.Sprintf("'s%d'", i) }, " || ") + " FROM t"
+	}},
+	{"in-list", func(n int) string {
+		return "SELECT a FROM t WHERE a IN (" + join(n, func(i int) string { return strconv.Itoa(i) }, ", ") + ")"
+	}},
+	{"values-rows", func(n int) string {
+		return "INSERT INTO t (a, b) VALUES " + join(n, func(i int) string { return fmt.Sprintf("(%d, 'v%d')", i, i) }, ", ")
+	}},
+	{"case-whens", func(n int) string {
+		return "SELECT CASE " + join(n, func(i int) string { return fmt.Sprintf("WHEN a = %d THEN %d", i, i) }, " ") + " ELSE 0 END FROM t"
+	}},
+	{"many-statements", func(n int) string {
+		return join(n, func(i int) string { return fmt.Sprintf("SELECT a, b FROM t%d WHERE a = %d", i, i) }, ";\n")
+	}},
 	{"long-literal", func(n int) string { return "SELECT '" + strings.Repeat("x", n*8) + "' FROM t" }},
 	{"long-identifier", func(n int) string { return "SELECT " + strings.Repeat("y", n*8) + " FROM t" }},
-	{"joins", func(n int) string { return "SELECT t0.a FROM t0 " + join(n/4+1, func(i int) string { return fmt.Sprintf("JOIN t%d ON t%d.k = t0.k", i+1, i+1) }, " ") }},
-	{"qualified-names", func(n int) string { return "SELECT " + join(n, func(i int) string { return fmt.Sprintf("s.t.c%d", i) }, ", ") + " FROM s.t" }},
+	{"joins", func(n int) string {
+		return "SELECT t0.a FROM t0 " + join(n/4+1, func(i int) string { return fmt.Sprintf("JOIN t%d ON t%d.k = t0.k", i+1, i+1) }, " ")
+	}},
+	{"qualified-names", func(n int) string {
+		return "SELECT " + join(n, func(i int) string { return fmt.Sprintf("s.t.c%d", i) }, ", ") + " FROM s.t"
+	}},
 	{"blank-run", func(n int) string { return "SELECT" + strings.Repeat(" \t\n", n*3) + "1" }},
-	{"function-args", func(n int) string { return "SELECT f(" + join(n, func(i int) string { return strconv.Itoa(i) }, ", ") + ") FROM t" }},
-	{"union-chain", func(n int) string { return join(n/4+1, func(i int) string { return fmt.Sprintf("SELECT c%d FROM t%d", i, i) }, " UNION ALL ") }},
-	{"order-by-list", func(n int) string { return "SELECT a FROM t ORDER BY " + join(n, func(i int) string { return fmt.Sprintf("c%d DESC", i) }, ", ") }},
+	{"function-args", func(n int) string {
+		return "SELECT f(" + join(n, func(i int) string { return strconv.Itoa(i) }, ", ") + ") FROM t"
+	}},
+	{"union-chain", func(n int) string {
+		return join(n/4+1, func(i int) string { return fmt.Sprintf("SELECT c%d FROM t%d", i, i) }, " UNION ALL ")
+	}},
+	{"order-by-list", func(n int) string {
+		return "SELECT a FROM t ORDER BY " + join(n, func(i int) string { return fmt.Sprintf("c%d DESC", i) }, ", ")
+	}},
+}
+
+// lexeme runs: n copies of ONE lexeme of the lexical grammar, blank-separated - every word the tokenizer treats
+// specially (the words that can start a compound keyword make it look ahead) and one lexeme of every other kind.
+// Most of these texts are not statements; the operations that read the whole text whatever it is must still be
+// near-linear on them.
+var runOps = map[string]bool{"tokenize": true, "lint": true, "scan-sql": true, "recovery": true}
+
+func init() {
+	lexemes := append([]string{}, lexconc.KeywordSpellings...)
+	lexemes = append(lexemes, "abc", "12345", "1.5e3", "'abc'", "\"ab\"", "`ab`", "$$a$$", "$1", "->>", "||", "::", "(", ",", "JOIN", "BY")
+	for _, l := range lexemes {
+		l := l
+		families = append(families, family{"run:" + l, func(n int) string { return join(n*2, func(int) string { return l }, " ") }})
+	}
 }
 
 type operation struct {
@@ -253,7 +308,11 @@ func main() {
 	quickFams := map[string]bool{"or-chain": true, "many-lines": true, "values-rows": true, "plus-chain": true}
 	for _, f := range families {
 		for _, o := range operations {
-			if tier != "thorough" && !quickOps[o.name] && !quickFams[f.name] {
+			if strings.HasPrefix(f.name, "run:") {
+				if !runOps[o.name] {
+					continue
+				}
+			} else if tier != "thorough" && !quickOps[o.name] && !quickFams[f.name] {
 				continue
 			}
 			jobs = append(jobs, &job{fam: f.name, op: o.name})
@@ -265,12 +324,14 @@ func main() {
 		ch <- j
 	}
 	close(ch)
-	for w := 0; w < 6; w++ {
+	for w := 0; w < 10; w++ {
 		wg.Add(1)
 		go func() {
 			defer wg.Done()
 			for j := range ch {
-				out := fmt.Sprintf("%s/verif-c20-%d-%s-%s.json", os.TempDir(), os.Getpid(), j.fam, j.op)
+				h := fnv.New64a() // family names may hold characters that cannot stand in a file name
+				h.Write([]byte(j.fam))
+				out := fmt.Sprintf("%s/verif-c20-%d-%x-%s.json", os.TempDir(), os.Getpid(), h.Sum64(), j.op)
 				r := run.RunChild([]string{"--child", j.fam, j.op, strconv.Itoa(capBytes)}, out+".cov", 15*time.Minute)
 				switch {
 				case r.TimedOut:
